@@ -242,6 +242,7 @@ def name_views(font):
             for a in attrs:
                 if a in ("AdvWidthMap", "AdvHeightMap") or getattr(t, a, None) is not None:
                     rows = _metric_var_rows(font, tag, a, order)
+                    # (without a map the delta-set row of a glyph is its glyph id: OpenType HVAR "implicit" mapping)
                     for n in order:
                         V[n][tag + "." + a] = rows[n]
     if "COLR" in font:
@@ -282,9 +283,10 @@ def name_views(font):
                     if priv is not None:
                         pd = tuple((k, freeze(v)) for k, v in sorted(vars(priv).items())
                                    if not k.startswith("_") and k not in ("file", "offset", "strings", "rawDict", "Subrs", "isCFF2", "vstore"))
-                    V[n][tag] = (freeze(c.program), sel, pd)
+                    V[n][tag.strip() + ".program"] = freeze(c.program)
+                    V[n][tag.strip() + ".fd"] = (sel, pd)        # Font DICT index (FDSelect) and the Private DICT it selects
                 except Exception as e:
-                    V[n][tag] = ("cs-error", type(e).__name__)
+                    V[n][tag.strip() + ".program"] = ("cs-error", type(e).__name__)
     if "GDEF" in font and getattr(font["GDEF"].table, "GlyphClassDef", None) is not None:
         cd = font["GDEF"].table.GlyphClassDef.classDefs
         for n in order:
@@ -433,7 +435,15 @@ def xml_lines_view(font, tag):
     w.close()
     lines = buf.getvalue().decode("utf-8", "replace").splitlines()
     lines = [re.sub(r' index="\d+"', "", l.strip()) for l in lines]
-    return tuple(sorted(l for l in lines if l and not l.startswith("<!--")))
+    out = []
+    for l in lines:
+        if not l or l.startswith("<!--"):
+            continue
+        toks = l.split()
+        if len(toks) > 1 and all(re.fullmatch(r"[^\s=<>]+=[^\s=<>]+", t) for t in toks):
+            l = " ".join(sorted(toks))          # a line of name=value pairs is a map listed in glyph-id order
+        out.append(l)
+    return tuple(sorted(out))
 
 
 # ---------------------------------------------------------------------------
@@ -671,6 +681,9 @@ OT_DESIGN = {
     ("GlyphPartRecord", "StartConnectorLength"), ("GlyphPartRecord", "EndConnectorLength"), ("GlyphPartRecord", "FullAdvance"),
     ("ClipBox", "xMin"), ("ClipBox", "yMin"), ("ClipBox", "xMax"), ("ClipBox", "yMax"),
 }
+MATH_PLAIN = {("MathConstants", "DelimitedSubFormulaMinHeight"), ("MathConstants", "DisplayOperatorMinHeight"),
+              ("MathVariants", "MinConnectorOverlap"), ("MathGlyphVariantRecord", "AdvanceMeasurement"),
+              ("GlyphPartRecord", "StartConnectorLength"), ("GlyphPartRecord", "EndConnectorLength"), ("GlyphPartRecord", "FullAdvance")}
 OT_DERIVED = {("VarData", "NumShorts")}
 # tables whose ItemVariationStore deltas are design units
 DESIGN_STORES = {"GDEF", "HVAR", "VVAR", "MVAR", "BASE"}
@@ -799,10 +812,13 @@ def _pen_leaves(font, names, relative, out, hmul=1, location=None, key="pen"):
                     continue
                 j += 1
                 for ci, c in enumerate(pt):
-                    if c != int(c):
+                    # in HALF units: the implied on-curve points of a spline are midpoints of stored points
+                    # (|2v' - k*2v| <= 2h/2 is the same bound h/2 on v)
+                    c2 = 2 * c
+                    if c2 != int(c2):
                         ok = False
                         break
-                    leaves.append(((key, n, oi, pi, ci), "D", int(c), hmul * j if relative else 1))
+                    leaves.append(((key, n, oi, pi, ci, "x2"), "D", int(c2), 2 * (hmul * j if relative else 1)))
         if not ok:
             nonint += 1
             out.append(((key, n), "I", "non-integer-coordinates", 0))
@@ -813,6 +829,8 @@ def _pen_leaves(font, names, relative, out, hmul=1, location=None, key="pen"):
 
 
 CFF_DEFAULT_FONTMATRIX = (0.001, 0, 0, 0.001, 0, 0)
+CFF_PRIVATE_D = ("BlueValues", "OtherBlues", "FamilyBlues", "FamilyOtherBlues", "StdHW", "StdVW", "StemSnapH", "StemSnapV",
+                 "defaultWidthX", "nominalWidthX")
 HINT_OPS = {"hstem", "vstem", "hstemhm", "vstemhm", "hintmask", "cntrmask"}
 
 
@@ -861,6 +879,17 @@ def scale_views(font, data, glyph_names=None):
             info["nonint"] += nonint
             top = font[tag].cff.topDictIndex[0]
             cs = top.CharStrings
+            # scale_upem documents that it de-subroutinizes: the operator sequence is compared on the
+            # de-subroutinized programs of both files
+            subr = False
+            for n in order:
+                c, _sel = cs.getItemAndSelector(n)
+                c.decompile()
+                if any(t in ("callsubr", "callgsubr") for t in c.program if isinstance(t, str)):
+                    subr = True
+                    break
+            if subr:
+                font[tag].cff.desubroutinize()
             for n in names:
                 c, sel = cs.getItemAndSelector(n)
                 c.decompile()
@@ -871,7 +900,9 @@ def scale_views(font, data, glyph_names=None):
                         c.draw(RecordingPen())
                         w = c.width
                         if w == int(w):
-                            out.append(((tag, n, "width"), "D", int(w), 2))
+                            out.append((("width", n, tag), "D", int(w), 2))
+                        else:       # dropped on both sides by the trace builder, like fractional outlines
+                            out.append((("width", n), "I", "non-integer-coordinates", 0))
                     except Exception:
                         pass
             # FontMatrix as the FILE states it: the stored operands, else the default of the CFF specification
@@ -885,6 +916,22 @@ def scale_views(font, data, glyph_names=None):
             for k in ("ROS", "CIDCount", "PaintType", "CharstringType", "isFixedPitch", "ItalicAngle"):
                 if hasattr(top, k):
                     out.append(((tag, k), "I", freeze(getattr(top, k)), 0))
+            # Private DICT entries in character-space units that scale_upem rescales (absolute values as the
+            # library presents them; BlueScale / BlueShift / BlueFuzz and the charstrings' stem hints are not compared)
+            privs = [fd.Private for fd in top.FDArray] if hasattr(top, "FDArray") else [getattr(top, "Private", None)]
+            for pi, pr in enumerate(privs):
+                if pr is None:
+                    continue
+                for a in CFF_PRIVATE_D:
+                    if a not in getattr(pr, "rawDict", {}):
+                        continue
+                    v = getattr(pr, a)
+                    vals = v if isinstance(v, list) else [v]
+                    if any(isinstance(x, list) or x != int(x) for x in vals):      # CFF2 blends / fractional values
+                        out.append((("private", (pi, a)), "I", "non-integer-coordinates", 0))
+                        continue
+                    for vi, x in enumerate(vals):
+                        out.append((("private", (pi, a), vi), "D", int(x), 1))
             if hasattr(top, "VarStore") and top.VarStore is not None:
                 ot_leaves(top.VarStore.otVarStore.VarRegionList, (tag, "VarStore.regions"), out, tag)
             V[tag] = out
@@ -899,12 +946,16 @@ def scale_views(font, data, glyph_names=None):
             except Exception as e:
                 info["skipped"].append("CFF2 corner outline: %s" % type(e).__name__)
     bb = maxn if is_cff else 1 + depth + (1 if transformed else 0)
+    info["bb"] = bb      # how many separately rounded numbers an outline extent of this font is made of
     if "head" in font:
         # CFF: head's box is recomputed on save from the charstrings as intRect(real extremum of the curves): kind "E"
         # (floor/ceil of a real number that is itself within maxn/2 of the scaled one; see build_scale_trace)
         V["head"] = _attr_leaves(font["head"], (), derived=HEAD_D, derived_h=(maxn + 2 if is_cff else bb),
-                                 skip=("checkSumAdjustment", "modified", "unitsPerEm", "indexToLocFormat"),
+                                 skip=("checkSumAdjustment", "modified", "unitsPerEm", "indexToLocFormat", "flags"),
                                  derived_kind="E" if is_cff else "D")
+        # bit 1 of head.flags is DERIVED on save ("every glyph's lsb equals its xMin", maxp.recalc): two numbers
+        # one unit apart may round to the same value, so the bit is not part of NothingElse
+        V["head"].append((("flags&~2",), "I", font["head"].flags & ~0x2, 0))
     for tag in ("hhea", "vhea"):
         if tag in font:
             V[tag] = _attr_leaves(font[tag], HHEA_D, derived=HHEA_DERIVED, derived_h=2 + 2 * bb, skip=("numberOfHMetrics", "numberOfVMetrics"))
@@ -923,10 +974,8 @@ def scale_views(font, data, glyph_names=None):
             V[tag] = out
     if "VORG" in font:
         t = font["VORG"]
-        out = [(("default",), "D", t.defaultVertOriginY, 1), (("version",), "I", (t.majorVersion, t.minorVersion), 0)]
-        for n, v in sorted(t.VOriginRecords.items()):
-            out.append(((n,), "D", v, 1))
-        V["VORG"] = out
+        V["VORG"] = [(("default",), "D", t.defaultVertOriginY, 1), (("version",), "I", (t.majorVersion, t.minorVersion), 0)]
+        V["VORG.records"] = [((n,), "D", v, 1) for n, v in sorted(t.VOriginRecords.items())]
     if "kern" in font:
         out = []
         for ki, k in enumerate(font["kern"].kernTables):
@@ -969,6 +1018,11 @@ def scale_views(font, data, glyph_names=None):
                 continue
             out = []
             ot_leaves(font[tag].table, (), out, tag)
+            if tag == "MATH":
+                # design-unit fields that are plain (u)int16 in the MATH table, as opposed to MathValueRecords
+                plain = [l for l in out if l[1] == "D" and tuple(l[0][-2:]) in MATH_PLAIN]
+                V["MATH.plain-int16-fields"] = plain
+                out = [l for l in out if not (l[1] == "D" and tuple(l[0][-2:]) in MATH_PLAIN)]
             V[tag] = out
     done = {"head", "hhea", "vhea", "OS/2", "post", "hmtx", "vmtx", "VORG", "kern", "gvar", "glyf", "loca", "CFF ", "CFF2", "maxp",
             "GSUB", "GPOS", "GDEF", "BASE", "MATH", "JSTF", "HVAR", "VVAR", "MVAR", "avar", "STAT", "COLR", "GlyphOrder", "VARC"}
